@@ -402,6 +402,87 @@ example : (runVote ⟨.supermajority, none, 2⟩ (bioVoters .safe 30 3)).decisio
     (runVote ⟨.bayesian, some (1 / 4), 1⟩ (bioVoters .dangerous 30 3)).decision = .block ∧
     (runVote ⟨.threshold, some (3 / 10), 1⟩ (bioVoters .rejected 0 3)).decision = .block := by decide +kernel
 
+/-! ### Colonies and histories: names never merge ballots; every vote of every history satisfies the clauses -/
+
+/-- One ballot per colony member, by position, whatever the members are called (duplicate, empty, built-in names):
+    the result's votes are the members' votes in colony order and the total is the colony size. -/
+theorem c06_one_ballot_per_member_whatever_the_names (cfg : Cfg) (c : List Member) (beh : Nat → Behaviour) :
+    (runVote cfg (electorate c beh)).votes = (electorate c beh).map toVote ∧
+    (runVote cfg (electorate c beh)).votes.length = c.length ∧
+    (runVote cfg (electorate c beh)).total = c.length := by
+  obtain ⟨h1, h2, -⟩ := c06_counts_equal_ballots cfg (electorate c beh)
+  refine ⟨h1, ?_, ?_⟩
+  · rw [h1, List.length_map, electorate_length]
+  · rw [h2, electorate_length]
+
+/-- The operations that look members up by name act on one member at most: `add_agent` always appends (also when
+    the name is taken); `remove_agent` removes exactly one member when it reports success and none otherwise, and
+    only ever removes; `set_agent_weight` keeps every member and every name. -/
+theorem c06_colony_operations (c : List Member) (name : List Nat) (w : Rat) :
+    (addAgent c name w).length = c.length + 1 ∧ (∀ m ∈ c, m ∈ addAgent c name w) ∧
+    (removeAgent c name).1.length = (if (removeAgent c name).2 then c.length - 1 else c.length) ∧
+    (∀ m ∈ (removeAgent c name).1, m ∈ c) ∧
+    (setAgentWeight c name w).1.map (·.name) = c.map (·.name) := by
+  refine ⟨by simp [addAgent], fun m hm => by simp [addAgent, hm], removeAgent_length c name,
+    removeAgent_sub c name, setAgentWeight_names c name w⟩
+
+/-- Every result produced by any history of operations on a quorum object (strategy changes, members added —
+    also under a name already in use — and removed, weights set by name or assigned, votes with arbitrary agent
+    behaviour, `update_reliability` / `update_all_reliability`) is the `runVote` of an electorate in the property's
+    domain under a configuration with a non-negative threshold: so every theorem above applies to every vote of
+    every history.  Hypotheses: the object starts in the domain and the operations' arguments are in it. -/
+theorem c06_history_every_vote_in_domain (st : QState) (ops : List Op) (hst : st.Valid)
+    (hops : ∀ op ∈ ops, op.Valid) :
+    ∀ r ∈ runHistory st ops, ∃ cfg voters, r = runVote cfg voters ∧ NonNegThreshold cfg ∧
+      (∀ v ∈ voters, v.Valid) ∧ cfg.minVoters = st.cfg.minVoters :=
+  history_results ops st hst hops
+
+/-- … spelled out for the soundness clauses: at every vote of every history, PERMIT is reported only with a permit
+    vote among the ballots cast, exactly when reached, exactly on the then-current criterion, and the reported
+    counts are the ballots cast. -/
+theorem c06_history_votes_are_sound (st : QState) (ops : List Op) (hst : st.Valid)
+    (hops : ∀ op ∈ ops, op.Valid) :
+    ∀ r ∈ runHistory st ops,
+      (r.decision = .permit ↔ r.reached = true) ∧
+      (r.decision = .permit → ∃ v ∈ r.votes, v.kind = .permit) ∧
+      (∃ cfg, NonNegThreshold cfg ∧ (r.reached = true ↔ Criterion cfg r.votes.length r.votes)) ∧
+      r.total = r.votes.length ∧ r.permit = nP r.votes ∧ r.block = nB r.votes ∧ r.abstain = nA r.votes := by
+  intro r hr
+  obtain ⟨cfg, voters, rfl, hn, hv, -⟩ := history_results ops st hst hops r hr
+  obtain ⟨c1, c2, c3, c4, c5⟩ := counts_eq cfg voters.length (collect voters)
+  have hvotes : (runVote cfg voters).votes = collect voters := c5
+  refine ⟨c06_permit_iff_reached cfg voters, ?_, ⟨cfg, hn, ?_⟩, ?_, ?_, ?_, ?_⟩
+  · intro hd
+    by_contra hnone
+    have hno : ∀ v ∈ voters, (toVote v).kind ≠ .permit := by
+      intro v hv' hk
+      apply hnone
+      exact ⟨toVote v, by rw [hvotes]; unfold collect; exact List.mem_map.mpr ⟨v, hv', rfl⟩, hk⟩
+    exact (c06_no_permit_without_permit_vote cfg voters hn hno).2 hd
+  · rw [hvotes, collect_length]; exact c06_reached_iff_criterion cfg voters hn hv
+  · unfold runVote; rw [c1, c5]
+  · unfold runVote; rw [c2, c5]
+  · unfold runVote; rw [c3, c5]
+  · unfold runVote; rw [c4, c5]
+
+/-- a concrete history in the domain: a colony [Bacterium_0, Replica, Replica] under UNANIMOUS; the first Replica
+    blocks — BLOCK, three ballots counted; the first Replica is removed by name, the rest permit — PERMIT;
+    `update_all_reliability(PERMIT)` then sets both reliabilities to 1/2 (one correct vote of two cast) and the
+    later weighted vote uses them: block 1·½·1 against permit 2·½·½ is a tie, hence BLOCK -/
+example :
+    let replica : List Nat := [82, 101]
+    let ops : List Op :=
+      [.add replica 1, .add replica 2,
+       .vote (fun i => if i = 1 then ⟨.block, .absent⟩ else ⟨.permit, .absent⟩),
+       .remove replica,
+       .vote (fun _ => ⟨.permit, .absent⟩),
+       .updateAll .permit,
+       .setStrategy .weighted none,
+       .vote (fun i => if i = 0 then ⟨.block, .num 1⟩ else ⟨.permit, .num (1 / 2)⟩)]
+    (runHistory ⟨⟨.unanimous, none, 1⟩, newColony 1, none⟩ ops).map (fun r => (r.decision, r.total, r.block))
+      = [(.block, 3, 1), (.permit, 2, 0), (.block, 2, 1)] := by
+  decide +kernel
+
 /-! ### Non-vacuity: concrete electorates meeting the hypotheses, and witnesses that no hypothesis can be dropped -/
 
 /-- the two repaired defects, on the model: three blocks under BAYESIAN and two blocks under the default
